@@ -198,7 +198,8 @@ func genC08(tier string, seed uint64, emit0 func(string)) {
 			emit0("sys authmsg " + line[4:])
 		}
 	}
-	pws := []string{"secret", "S3cr3t!", "pass word", "p\r\nq", "a"}
+	// (passwords as they come out of a secrets file or an environment variable: with a trailing newline, blanks around them)
+	pws := []string{"secret", "S3cr3t!", "pass word", "p\r\nq", "a", "s3cret passphrase \n", " lead", "trail ", "\ttab\t", "nl\r\n"}
 	// a command wrapped in outer arrays is descended into and executed like the command itself: the same gate applies
 	nest := func(id, depth int, args ...[]byte) sysStep {
 		st := mkStep(id, nil, args...)
